@@ -511,10 +511,6 @@ func (st *State) applyContract(f *Frame, ins ssa.Instruction, c *Contract, calle
 		}
 	}
 	for _, en := range c.Ensures {
-		if curProp != "" && curProp != "all" && len(en.Props) > 0 && !containsStr(en.Props, curProp) {
-			// a clause stated for other properties only: not needed (and not proved) in this check
-			continue
-		}
 		st.assume(st.evalBool(en.Expr, &env2, en))
 	}
 	for _, en := range c.Assumes {
